@@ -114,12 +114,13 @@ def get_html_md_word_splitter() -> WordSplitter:
 
 # Pattern to identify words that need escaping if they start a wrapped markdown line.
 # Matches list markers (*, +, -) bare or before a space (but not before a letter for
-# example), headings (#, ##, etc.), runs of the thematic break and setext underline
-# characters (---, ***, ___, ===, also spaced out like "_ _ _"), anything starting with
+# example), headings (#, ##, etc.), runs of one thematic break or setext underline
+# character (---, ***, ___, ===, also spaced out like "_ _ _"; a mixed word such as "*_*"
+# is emphasis, not a marker), anything starting with
 # a blockquote marker (>, >x) and code fence openers (```, ~~~). A backtick fence cannot
 # have a backtick in its info string, so a word with further backticks (a whole code span
 # delimited by three or more backticks) is not an opener and must not be escaped.
-_md_specials_pat = re.compile(r"^([-*+_=]+|>.*|#+|`{3,}[^`]*|~{3,}.*)$", re.DOTALL)
+_md_specials_pat = re.compile(r"^(-+|=+|\*+|_+|\+|>.*|#+|`{3,}[^`]*|~{3,}.*)$", re.DOTALL)
 
 # Separate pattern to specifically find the numbered list cases for targeted escaping
 _md_numeral_pat = re.compile(r"^[0-9]+[.)]$")
@@ -135,6 +136,10 @@ def markdown_escape_word(word: str) -> str:
         # Insert backslash before the `.` or `)`
         return word[:-1] + "\\" + word[-1]
     elif _md_specials_pat.match(word):
+        if set(word) <= {"*", "_"}:
+            # Every character of a run of emphasis delimiters needs its own backslash: after
+            # "\\**" the second "*" would still close an emphasis opened earlier.
+            return "".join("\\" + ch for ch in word)
         return "\\" + word
     return word
 
